@@ -3,6 +3,7 @@ package main
 // Core of the VC generator: symbolic execution of go/ssa functions in passive form.
 
 import (
+	"regexp"
 	"fmt"
 	"go/token"
 	"go/types"
@@ -111,6 +112,7 @@ type LocSet struct {
 
 type Exec struct {
 	prog      *Program
+	anchors   map[string][]string // heap component -> references (bases of slice parameters) at which every new heap version is related to its predecessor by a ground instance
 	cs        *ContractSet
 	lines     []string
 	nfresh    int
@@ -179,7 +181,31 @@ func newExec(prog *Program, cs *ContractSet, property string) *Exec {
 // ---------------------------------------------------------------------------------------
 // emission helpers
 
-func (x *Exec) emit(line string) { x.lines = append(x.lines, line) }
+func (x *Exec) emit(line string) {
+	x.lines = append(x.lines, line)
+	if len(x.anchors) > 0 && strings.HasPrefix(line, "(assert (forall ((r Int)) (! (=> (not (= r ") {
+		// a per-object frame axiom "every object but X keeps its value": add its ground instances
+		// at the anchored references of that component
+		if m := frameAxiomRe.FindStringSubmatch(line); m != nil {
+			comp := versionSuffixRe.ReplaceAllString(m[2], "")
+			for name, refs := range x.anchors {
+				if sanitize(name) != comp {
+					continue
+				}
+				for _, b := range refs {
+					if b != m[1] {
+						x.lines = append(x.lines, sx("assert", implies(not(eq(b, m[1])), eq(sel(m[2], b), sel(m[3], b)))))
+					}
+				}
+			}
+		}
+	}
+}
+
+var (
+	frameAxiomRe    = regexp.MustCompile(`^\(assert \(forall \(\(r Int\)\) \(! \(=> \(not \(= r ([^\s()]+)\)\) \(= \(select ([^\s()]+) r\) \(select ([^\s()]+) r\)\)\) :pattern`)
+	versionSuffixRe = regexp.MustCompile(`(_[a-z]*![0-9]+|@0)$`)
+)
 
 func (x *Exec) fresh(hint, sort string) string {
 	x.nfresh++
@@ -316,6 +342,31 @@ func (x *Exec) setComp(st *State, name, sort, term string) {
 	sym := x.fresh(sanitize(name)+"@", sort)
 	x.emit(sx("assert", eq(sym, term)))
 	st.H[name] = sym
+	if len(x.anchors[name]) > 0 && strings.HasPrefix(term, "(store ") {
+		// ground instances of select-over-store at the anchored references (valid by array theory)
+		if t := parseSexpr(term); t != nil && len(t.kids) == 4 {
+			old, ref := t.kids[1].String(), t.kids[2].String()
+			for _, b := range x.anchors[name] {
+				if b != ref {
+					x.emit(sx("assert", implies(not(eq(b, ref)), eq(sel(sym, b), sel(old, b)))))
+				}
+			}
+		}
+	}
+}
+
+// anchor registers a reference whose per-object value in a heap component is tracked across
+// heap versions by ground instances (of store/merge definitions and loop frame axioms).
+func (x *Exec) anchor(name, ref string) {
+	if x.anchors == nil {
+		x.anchors = map[string][]string{}
+	}
+	for _, r := range x.anchors[name] {
+		if r == ref {
+			return
+		}
+	}
+	x.anchors[name] = append(x.anchors[name], ref)
 }
 
 func (x *Exec) havocComp(st *State, name, sort string) (oldSym, newSym string) {
@@ -514,7 +565,7 @@ func (x *Exec) query(o *Obligation, withModel bool) string {
 }
 
 // assemble builds the SMT-LIB text of one obligation over the given context lines.
-func (x *Exec) assemble(lines []string, o *Obligation, withModel bool, inst bool) string {
+func (x *Exec) assemble(lines []string, o *Obligation, withModel bool, inst bool, plainRounds ...int) string {
 	var b strings.Builder
 	if withModel {
 		b.WriteString("(set-option :produce-models true)\n")
@@ -525,11 +576,34 @@ func (x *Exec) assemble(lines []string, o *Obligation, withModel bool, inst bool
 		b.WriteByte('\n')
 	}
 	rounds := 1
+	if len(plainRounds) > 0 {
+		rounds = plainRounds[0]
+	}
 	if inst {
 		rounds = 3
 	}
-	li := x.prog.lemmaInstancesN(lines, o.Goal, rounds)
-	b.WriteString(li)
+	lp := x.prog
+	if rounds == 0 {
+		// variant without the lemma families (marker-requested lemmas only)
+		q := *x.prog
+		q.noFamilies = true
+		lp = &q
+		rounds = 1
+	} else if rounds == -1 {
+		// variant with the single-phase, loosely matched lemma instantiation
+		q := *x.prog
+		q.legacyLemmas = true
+		lp = &q
+		rounds = 1
+	}
+	lemmaGoal := o.Goal
+	if inst {
+		// the lemmas are instantiated at the terms of the skolemised goal (same skolem names as below)
+		if _, _, ng := preInstantiate(nil, o.PC, o.Goal, 0, nil); strings.HasPrefix(ng, "(assert (not ") {
+			lemmaGoal = strings.TrimSuffix(strings.TrimPrefix(ng, "(assert (not "), "))")
+		}
+	}
+	li := lp.lemmaInstancesN(lines, lemmaGoal, rounds)
 	var decls, extra []string
 	negGoal := sx("assert", not(o.Goal))
 	if inst {
@@ -546,6 +620,7 @@ func (x *Exec) assemble(lines []string, o *Obligation, withModel bool, inst bool
 	for _, d := range decls {
 		b.WriteString(d + "\n")
 	}
+	b.WriteString(li) // after the skolem declarations: the instances may mention them
 	for _, e := range extra {
 		b.WriteString(e + "\n")
 	}
